@@ -10,7 +10,7 @@ HNext == \/ \E sp \in {"R", "U"}, l \in Levels, s \in Schemes : Configure(sp, l,
          \/ \E f \in Families : SetMlxc(f) /\ Rec(<<"set_mlxc", f>>)
          \/ Redecorate /\ Rec(<<"redecorate">>)
          \/ \E l \in Levels, s \in Schemes : SetGridAttr(l, s) /\ Rec(<<"grid_attr", l, s>>)
-         \/ Build /\ Rec(<<"build">>)
+         \/ \E wm \in BOOLEAN : Build(wm) /\ Rec(<<"build", wm>>)
          \/ InitGrids /\ Rec(<<"init_grids">>)
          \/ NrCall(NSpin(ks.spin)) /\ Rec(<<"nr_call", NSpin(ks.spin)>>)
          \/ \E m \in Mols : Reset(m) /\ Rec(<<"reset", m>>)
